@@ -5,6 +5,7 @@ import (
 	"io"
 	"net"
 	"sort"
+	"strings"
 	"testing"
 	"time"
 
@@ -86,10 +87,11 @@ func TestC18Binary(t *testing.T) {
 			rt.Fatalf("C18 violated (binary): "+f, a...)
 		}
 		if resp == nil {
-			if len(issued) == 0 {
-				rt.Skip("no ping arrived (inconclusive)")
+			// slow, or never coming? a ping of ours after the last answer settles it
+			if _, st := wsAwait(ws, time.Second, TSignedLatencyResp); st != "skipped" {
+				rt.Skip("no verdict on the final response (" + st + ")")
 			}
-			bad("%d pings were answered but no signed latency response arrived within 10 s", len(issued))
+			bad("%d pings were answered but no signed latency response followed (the connection answers later requests)", len(issued))
 		}
 		if resp.RequestId != 7 {
 			bad("response echoes request id %d, sent 7", resp.RequestId)
@@ -188,9 +190,12 @@ func TestC16Binary(t *testing.T) {
 			sec := int64(1000 + uni(rt, "sec", 6)*10)
 			req++
 			wsSend(a.ws, &vikjapb.EntityActionRequest{Type: TActionReq, Timestamp: ts(), RequestId: req, EntityAction: &vikjapb.EntityAction{EntityId: eid, Name: name, Timestamp: &timestamppb.Timestamp{Seconds: sec}, Data: []byte{byte(i)}}})
-			r, ok := wsUntilAny(a.ws, 5*time.Second, TActionResp, TError)
-			if !ok {
-				bad("entity action request %d got no answer: is the vikja module loaded?", req)
+			r, st := wsAwait(a.ws, 5*time.Second, TActionResp, TError)
+			if st == "inconclusive" {
+				rt.Skip("server too slow: inconclusive")
+			}
+			if st != "got" {
+				bad("entity action request %d got no answer (%s): is the vikja module loaded?", req, st)
 			}
 			accepted := r.T == TActionResp
 			old, had := latest[name]
@@ -199,8 +204,8 @@ func TestC16Binary(t *testing.T) {
 			}
 			if accepted {
 				latest[name] = sec
-				if _, ok := wsUntil(b.ws, TActionBcast, 5*time.Second); !ok {
-					bad("the other member did not receive the accepted action %q", name)
+				if _, ok := wsUntil(b.ws, TActionBcast, 20*time.Second); !ok {
+					bad("the other member did not receive the accepted action %q within 20 s", name)
 				}
 			}
 		}
@@ -211,9 +216,12 @@ func TestC16Binary(t *testing.T) {
 			req++
 			asset := fmt.Sprintf("asset-%d", uni(rt, "asset", 3))
 			wsSend(a.ws, &odalpb.AssetInstanceAddRequest{Type: TAssetReq, Timestamp: ts(), RequestId: req, EntityId: eid, AssetId: asset})
-			r, ok := wsUntilAny(a.ws, 5*time.Second, TAssetResp, TError)
-			if !ok || r.T != TAssetResp {
-				bad("asset instance add %d was not accepted (answer type %d): is the odal module loaded?", req, r.T)
+			r, st := wsAwait(a.ws, 5*time.Second, TAssetResp, TError)
+			if st == "inconclusive" {
+				rt.Skip("server too slow: inconclusive")
+			}
+			if st != "got" || r.T != TAssetResp {
+				bad("asset instance add %d was not accepted (%s, answer type %d): is the odal module loaded?", req, st, r.T)
 			}
 			inst := r.M.(*odalpb.AssetInstanceAddResponse).AssetInstanceId
 			if seenInst[fmt.Sprint(inst)] {
@@ -221,8 +229,8 @@ func TestC16Binary(t *testing.T) {
 			}
 			seenInst[fmt.Sprint(inst)] = true
 			lastInst, lastAsset = fmt.Sprint(inst), asset
-			if _, ok := wsUntil(b.ws, TAssetBcast, 5*time.Second); !ok {
-				bad("the other member did not receive the asset instance broadcast")
+			if _, ok := wsUntil(b.ws, TAssetBcast, 20*time.Second); !ok {
+				bad("the other member did not receive the asset instance broadcast within 20 s")
 			}
 		}
 		col.Case(fmt.Sprintf("%v/%d/%d", latest, nAct, nAsset), true, map[string]int{"actions": nAct, "assets": nAsset}, func() any {
@@ -275,6 +283,49 @@ func TestC16Binary(t *testing.T) {
 			bad("the newcomer is handed %d asset instances for the entity, expected exactly 1", n)
 		}
 	})
+}
+
+// wsAwait waits for an answer of one of the wanted types without turning slowness into a verdict.
+// After `first` without it, a ping is sent on the same connection: a connection's requests are
+// handled one after the other and answered through one queue, so if the PONG arrives and the
+// awaited answer still has not, the request was definitely not answered ("skipped"); if neither
+// arrives within a further 30 s the machine is too busy to tell ("inconclusive").
+func wsAwait(ws *websocket.Conn, first time.Duration, want ...int32) (rx Rx, status string) {
+	match := func(r Rx) bool {
+		for _, w := range want {
+			if r.T == w {
+				return true
+			}
+		}
+		return false
+	}
+	deadline := time.Now().Add(first)
+	probed := false
+	const probeID = 0xFFFFFF01
+	for {
+		r, err := wsRecv(ws, time.Until(deadline))
+		if err == nil {
+			if match(r) {
+				return r, "got"
+			}
+			if probed && r.T == TPingResp && r.ReqID() == probeID {
+				return Rx{}, "skipped"
+			}
+			continue
+		}
+		if ne, ok := err.(net.Error); !ok || !ne.Timeout() {
+			if err == io.EOF || strings.Contains(err.Error(), "closed") || strings.Contains(err.Error(), "reset") {
+				return Rx{}, "closed"
+			}
+			continue // a frame this client does not decode
+		}
+		if probed {
+			return Rx{}, "inconclusive"
+		}
+		probed = true
+		wsSend(ws, &hagallpb.Request{Type: TPingReq, Timestamp: timestamppb.Now(), RequestId: probeID})
+		deadline = time.Now().Add(30 * time.Second)
+	}
 }
 
 // wsUntilAny reads until a message of one of the wanted types arrives.
@@ -342,8 +393,11 @@ func TestC20Binary(t *testing.T) {
 		defer d.Close()
 		region := func(ws *websocket.Conn, req uint32) int {
 			wsSend(ws, &dagazpb.DagazGetRegionRequest{Type: TRegionReq, Timestamp: ts(), RequestId: req, Min: &dagazpb.Point{X: -500, Z: -500}, Max: &dagazpb.Point{X: 500, Z: 500}})
-			r, ok := wsUntilAny(ws, 5*time.Second, TRegionResp, TError)
-			if !ok || r.T != TRegionResp {
+			r, st := wsAwait(ws, 5*time.Second, TRegionResp, TError)
+			if st == "inconclusive" {
+				rt.Skip("server too slow: inconclusive")
+			}
+			if st != "got" || r.T != TRegionResp {
 				return -1
 			}
 			return len(r.M.(*dagazpb.DagazGetRegionResponse).Quads)
